@@ -358,6 +358,11 @@ func runC03(c *Ctx) {
 	}
 
 	checkEmitWidth(c, "R03.3")
+	importFreshState(c, "R03.3", "texttable")
+	// a slot is as wide as its column: the text plus (column width - measured width) spaces, whatever the alignment
+	importPremises(c, "R03.3", "slot-width premise ", "a slot padded from anything but the measured width of its text is narrower or wider than the column", func(o *Ob) bool {
+		return o.Rule == "R04.3"
+	}, func() { runC04(c) })
 	// premise: the layout width (TerminalCellWidth) is the widest line measured in terminal cells, the same
 	// measure the emitter applies to each line it prints
 	if lines := c.Func("length", "Lines"); lines != nil {
@@ -1087,6 +1092,7 @@ func runC04(c *Ctx) {
 	}
 
 	// premise: the measuring callback Wrap registers runs for every cell whatever other callbacks do
+	importFreshState(c, "R04.2", "texttable")
 	importPremises(c, "R04.4", "measuring-callback premise: ", "a cell that is not measured renders as a blank slot", nil, func() { c13InvokesAll(c, "R13.7") })
 
 	// the item's own Height()/TerminalCellWidth() is consulted for every item that reaches the text dispatch,
